@@ -24,4 +24,4 @@ Deliverables, all inside {wt}/SEED/ (create the directory):
 2. demo_test.go — an in-package Go test file (same package as the code you changed, package clause included) containing exactly one test function named TestSeedDemo that FAILS with your change and PASSES without it. It will be copied into the package directory of the changed file as zz_seed_demo_test.go and run with: go test -vet=off -count=1 -timeout 120s -run '^TestSeedDemo$' ./<pkgdir>/
 3. meta.json — {{"property": "{pid}", "pkgdir": "<package directory of demo_test.go relative to the repo root>", "summary": "<what you changed and why it breaks the property>", "needs": "<what is needed for it to manifest>", "ran": ["<commands you ran and their outcomes>"]}}
 
-Before finishing, verify yourself: (a) with the change applied, go build ./... succeeds and the touched package's existing tests pass; (b) TestSeedDemo fails with the change; (c) after `git stash` / reverting the change, TestSeedDemo passes. Leave the worktree with the change APPLIED and no stray test file in the package directory. Reply with a three-line summary (file changed, what breaks, pkgdir).""")
+Before finishing, verify yourself: (a) with the change applied, go build ./... succeeds and the touched package's existing tests pass; (b) TestSeedDemo fails with the change; (c) after reverting the change with `git apply -R SEED/patch.diff` (do NOT use `git stash`: the stash is shared with other checkouts), TestSeedDemo passes; then re-apply it with `git apply SEED/patch.diff`. Leave the worktree with the change APPLIED and no stray test file in the package directory. Reply with a three-line summary (file changed, what breaks, pkgdir).""")
